@@ -4,6 +4,7 @@ package checks
 
 import (
 	"fmt"
+	"os"
 	"strings"
 	"testing"
 
@@ -432,29 +433,34 @@ func editString(rt *rapid.T, s string) string {
 	return string(r)
 }
 
-func TestC11(t *testing.T) {
-	col := ev.Get()
+// c11Stored evaluates a stored case (replay or regression file) of any of the three payload kinds of this check.
+func c11Stored(t *testing.T, path string) {
 	var rc c11Case
-	if replayPayload(t, &rc) {
-		if rc.Position == "" {
-			var raw c11Raw
-			replayPayload(t, &raw)
-			if raw.YAML != "" {
-				c11EvalRaw(t, raw)
-				return
-			}
-			var cc cfgCase
-			replayPayload(t, &cc)
-			verdictEvalAndClean(t, cc)
-			return
-		}
+	loadRegress(t, path, &rc)
+	if rc.Position != "" {
 		c11Eval(t, rc)
 		return
 	}
+	var raw c11Raw
+	loadRegress(t, path, &raw)
+	if raw.YAML != "" {
+		c11EvalRaw(t, raw)
+		return
+	}
+	var cc cfgCase
+	loadRegress(t, path, &cc)
+	verdictEvalAndClean(t, cc)
+}
+
+func TestC11(t *testing.T) {
+	col := ev.Get()
+	if p := os.Getenv("VERIF_REPLAY"); p != "" {
+		c11Stored(t, p)
+		col.Complete() // a replay run has no budget to complete
+		return
+	}
 	for _, f := range regressFiles("C11") {
-		var c c11Case
-		loadRegress(t, f, &c)
-		c11Eval(t, c)
+		c11Stored(t, f)
 		col.Label("regress")
 	}
 
